@@ -27,6 +27,9 @@ CHECKS = {
  "C20": dict(level="exploration", ref="5 C20", tech="bounded-exhaustive enumeration of byte strings (grammar-bounded JSON, all single-byte edits of canonical batches, all short decimal strings) against an independent recogniser / exact rational arithmetic",
    text="About 28,000 batch contents (grammar-bounded member sequences with duplicate, case-variant and unknown keys at every level, value alphabets at the int64/uint64 edges, whitespace at every gap, every single-byte insertion/deletion/substitution of canonical batches; thorough: more batches and two-transaction sequences) go through the real fat2.NewTransactionBatch with a valid signature; every accepted string must be accepted by an independent strict recogniser and survive Marshal/decode. Every decimal string of length <= 6 (thorough 7) over `0159.-+e ` plus boundary whole parts x all fractions of <= 9 digits over {0,1,9} goes through cmd.FactoidToFactoshi and is compared with exact big-integer arithmetic.",
    note="Alphabet- and length-bounded. JSON null as an amount and case-folded keys are not counted as non-canonical (the property's list does not name them)."),
+ "C05": dict(level="exploration", ref="5 C05", tech="exhaustive single-bit and structural mutation of valid signed entries through the real block pipeline, differential (group testing + bisection)",
+   text="For RCD-1 and RCD-e keys, transfers and held conversions, RCD-e active and not yet active, 2.0.5 and bank-pooled ledgers: every single-bit flip of every external id and of the content (quick: all ext-id bits, the first and last 32 content bytes and every 4th byte between; thorough: every bit), every structural mutant and the entry written to the other chains are applied by the real DBlockSync in the block after the valid entry; the ledger must equal that of the chain without mutants, differing packs are bisected to single mutants. Salt-window edges are checked one chain each.",
+   note="Trusts the signature primitives. The RCD-e recovery-byte malleability is an open known finding."),
 }
 
 NOT_YET = {}
